@@ -8,7 +8,7 @@ Procs(n) == {<<a>> : a \in 0..n} \cup {<<a, b>> : a \in 0..n, b \in 0..n}
 \* quick: every processor list up to 2 x 2 tasks on one host with 1..2 executors; two hosts with the lists that matter for the
 \* host barrier
 QuickScenarios == {S(1, k, p) : k \in 1..2, p \in Procs(2)} \cup {S(1, 1, <<3>>), S(1, 2, <<3>>), S(1, 2, <<1, 3>>)}
-                  \cup {S(2, 1, p) : p \in {<<1>>, <<0, 1>>, <<2>>, <<1, 1>>}} \cup {S(2, 2, <<1>>), S(2, 2, <<0, 1>>)}
+                  \cup {S(2, 1, p) : p \in {<<1>>, <<0, 1>>, <<2>>, <<1, 1>>}} \cup {S(2, 2, <<1>>)}
 \* thorough: the full bounds: hosts 1..2, executors 1..2, 1..2 processors, 0..3 tasks each
 ThoroughScenarios == {S(h, k, p) : h \in 1..2, k \in 1..2, p \in Procs(3)}
 LiveScenarios == {S(1, 2, <<2>>), S(1, 2, <<1, 1>>), S(1, 1, <<0, 2>>), S(2, 1, <<1>>)}
